@@ -656,6 +656,19 @@ void queue_string_values(const vf::opts &o, vf::report &R, uint64_t cases) {
             }
             // drain what is left
             while (err.empty() && pops < (int)pushed.size()) { pops++; qs_popper(*q, got, done).detach(); }
+            if constexpr (Limited) {
+                // in-place construction arguments (count, char) - also for pushes that have to WAIT: the parked item must be built exactly
+                // like the stored one (std::string(count, ch), not a two-character initializer list)
+                if (err.empty() && done == pops) {
+                    std::vector<std::unique_ptr<cocls::future<void>>> pf;
+                    size_t n0 = pushed.size(), total = 3 + r.below(8);
+                    for (size_t k = 0; k < total; k++) { std::size_t cnt = 30 + k; char ch = (char)('a' + k); pushed.push_back(std::string(cnt, ch)); pf.push_back(std::unique_ptr<cocls::future<void>>(new cocls::future<void>(q->push(cnt, ch)))); }
+                    desc += "push(count,char)x" + std::to_string(total) + " (some blocked) ";
+                    for (size_t k = 0; k < total; k++) { pops++; qs_popper(*q, got, done).detach(); }
+                    for (auto &f : pf) if (!f->ready() && err.empty()) { err = "a blocked push did not complete although every item was popped"; for (auto &x : pf) (void)x.release(); }
+                    (void)n0;
+                }
+            }
         } // queue destroyed: pops still waiting end without a value
         R.cases++;
         if (err.empty()) {
